@@ -26,6 +26,14 @@ type Config struct {
 	MaxPaths  int
 	MaxVisits int
 	MaxDepth  int
+	// WritesOverride: for the named uninterpreted callees (short names), the
+	// argument positions (receiver = 0) they write, replacing the may-write
+	// summary where it is too coarse (a callee that writes its data argument
+	// only in modes this caller never selects).  Each entry carries its reason
+	// in the property file that sets it.
+	WritesOverride map[string][]int
+	MaxForks       int // total forks before the walk gives up (default 60000)
+	MaxSteps       int // total instructions executed over all paths (default 20 million)
 	// GlobalLen: known lengths of package-level slices (from their literal initialisers).
 	GlobalLen map[string]int64
 	// SymLoops: loops of the target function itself are not unrolled; each is
@@ -73,14 +81,18 @@ type state struct {
 
 	pendingBack *Term
 	typeCount   map[string]int
+	rootLens    map[string]int64
 }
 
 func (s *state) clone() *state {
 	n := &state{heap: make(map[string]hent, len(s.heap)), val: make(map[string]bool, len(s.val)), nextID: s.nextID,
 		seenCall: make(map[string]ssa.Instruction, len(s.seenCall)), closures: s.closures, cloEnv: s.cloEnv, pendingBack: s.pendingBack,
-		typeCount: make(map[string]int, len(s.typeCount))}
+		typeCount: make(map[string]int, len(s.typeCount)), rootLens: make(map[string]int64, len(s.rootLens))}
 	for k, v := range s.typeCount {
 		n.typeCount[k] = v
+	}
+	for k, v := range s.rootLens {
+		n.rootLens[k] = v
 	}
 	for k, v := range s.heap {
 		n.heap[k] = v
@@ -300,6 +312,7 @@ type walker struct {
 	work  []*state
 	over  bool
 	forks int
+	steps int
 }
 
 // loopBlocks returns the natural loop of a header.
@@ -438,12 +451,18 @@ func Walk(cfg *Config, fn *ssa.Function) []*Path {
 	if cfg.MaxDepth == 0 {
 		cfg.MaxDepth = 8
 	}
+	if cfg.MaxForks == 0 {
+		cfg.MaxForks = 60000
+	}
+	if cfg.MaxSteps == 0 {
+		cfg.MaxSteps = 20000000
+	}
 	if cfg.GlobalLen == nil {
 		cfg.GlobalLen = ScanGlobalLens(cfg.P)
 	}
 	w := &walker{cfg: cfg, fn: fn}
 	st := &state{heap: map[string]hent{}, val: map[string]bool{}, seenCall: map[string]ssa.Instruction{},
-		closures: map[*Term]*ssa.MakeClosure{}, cloEnv: map[*Term][]*Term{}, typeCount: map[string]int{}}
+		closures: map[*Term]*ssa.MakeClosure{}, cloEnv: map[*Term][]*Term{}, typeCount: map[string]int{}, rootLens: map[string]int64{}}
 	fr := &frame{id: 0, fn: fn, env: map[ssa.Value]*Term{}, visits: map[*ssa.BasicBlock]int{}}
 	for _, prm := range fn.Params {
 		fr.env[prm] = paramTerm(prm)
@@ -472,8 +491,49 @@ func paramTerm(prm *ssa.Parameter) *Term {
 	return mk("$" + prm.Name())
 }
 
+// render resolves, for presentation, pointers stored inside a term to the
+// contents they point to (so that a returned struct shows the final state of
+// the objects its fields reference).
+func (s *state) render(t *Term, depth int) *Term { return s.render2(t, depth, map[string]bool{}) }
+
+func (s *state) render2(t *Term, depth int, busy map[string]bool) *Term {
+	if t == nil || depth > 6 {
+		return t
+	}
+	key := t.String()
+	if !busy[key] {
+		c := s.content(t)
+		if c != t && c.String() != key {
+			busy[key] = true
+			r := s.render2(c, depth+1, busy)
+			delete(busy, key)
+			return r
+		}
+	}
+	if len(t.Args) == 0 {
+		return t
+	}
+	changed := false
+	args := make([]*Term, len(t.Args))
+	for i, a := range t.Args {
+		args[i] = s.render2(a, depth+1, busy)
+		if args[i] != a {
+			changed = true
+		}
+	}
+	if !changed {
+		return t
+	}
+	return &Term{Op: t.Op, Args: args, C: t.C, Nil: t.Nil, Loc: t.Loc}
+}
+
 func (w *walker) finish(s *state, p *Path) {
 	p.Lits = s.lits
+	for i, o := range p.Outcome {
+		if o.Op == "&new" {
+			p.Outcome[i] = s.render(o, 0)
+		}
+	}
 	p.Events = s.events
 	p.Final = map[string]*Term{}
 	for _, e := range s.heap {
@@ -905,8 +965,10 @@ func narrowing(from, to types.Type) string {
 
 func (w *walker) run(s *state) {
 	for steps := 0; ; steps++ {
-		if steps > 200000 {
+		w.steps++
+		if steps > 200000 || w.steps > w.cfg.MaxSteps {
 			w.giveUp(s, "step budget exceeded")
+			w.work = nil
 			return
 		}
 		fr := s.frames[len(s.frames)-1]
@@ -931,7 +993,11 @@ func (w *walker) run(s *state) {
 			if arr, ok := x.Type().Underlying().(*types.Pointer).Elem().Underlying().(*types.Array); ok {
 				n = arr.Len()
 			}
-			fr.env[x] = refTerm(&Loc{Root: s.localRoot("A", x.Type().Underlying().(*types.Pointer).Elem()), Len: n, NonNil: true})
+			aroot := s.localRoot("A", x.Type().Underlying().(*types.Pointer).Elem())
+			if n >= 0 {
+				s.rootLens[aroot] = n
+			}
+			fr.env[x] = refTerm(&Loc{Root: aroot, Len: n, NonNil: true})
 		case *ssa.MakeSlice:
 			n := int64(-1)
 			if c := w.val(s, fr, x.Len); c.IsConst() {
@@ -1147,7 +1213,7 @@ func (w *walker) run(s *state) {
 			}
 			// fork
 			w.forks++
-			if w.forks > 60000 || len(w.work) > 4000 {
+			if w.forks > w.cfg.MaxForks || len(w.work) > 4000 {
 				w.giveUp(s, "fork budget exceeded (a loop with a symbolic bound is being unrolled: make the callee opaque or use SymLoops)")
 				w.work = nil
 				return
@@ -1378,6 +1444,9 @@ func (w *walker) uninterpreted(s *state, fr *frame, instr ssa.CallInstruction, a
 			}
 		}
 	}
+	if ov, ok := w.cfg.WritesOverride[name]; ok {
+		writes = ov
+	}
 	// argument contents at call time
 	var cargs []*Term
 	for i, a := range all {
@@ -1404,7 +1473,18 @@ func (w *walker) uninterpreted(s *state, fr *frame, instr ssa.CallInstruction, a
 			l := all[1].Loc
 			if n := len(l.Path); n > 0 && (strings.HasPrefix(l.Path[n-1], "[0:0]") || l.Path[n-1] == "[:0]") {
 				parent := &Loc{Root: l.Root, Path: l.Path[:n-1], Len: -1, NonNil: l.NonNil}
-				s.hset(parent, ct)
+				// Sum appends to x[:0]: the digest lands in x only if x has room for
+				// it; otherwise Sum allocates and x keeps its old contents
+				capN := int64(-1)
+				if n == 1 {
+					capN = w.rootLen(s, l.Root)
+				}
+				dig := digestSize(s.content(all[0]))
+				if capN >= 0 && dig > 0 && capN >= dig {
+					s.hset(parent, ct)
+				} else {
+					s.hset(parent, mk(fmt.Sprintf("sumIntoCap%d", capN), ct))
+				}
 			}
 		}
 		s.events = append(s.events, ct.String())
@@ -1483,6 +1563,33 @@ func (w *walker) uninterpreted(s *state, fr *frame, instr ssa.CallInstruction, a
 		rs = append(rs, mkRes(i))
 	}
 	return mk("tuple", rs...)
+}
+
+// digestSize: the digest length of a hash state term, if its constructor is known.
+func digestSize(t *Term) int64 {
+	for t != nil && (t.Op == "H") && len(t.Args) > 0 {
+		t = t.Args[0]
+	}
+	if t == nil {
+		return -1
+	}
+	switch {
+	case strings.HasPrefix(t.Op, "sha512.New512_256"), strings.HasPrefix(t.Op, "sha256.New"):
+		return 32
+	case strings.HasPrefix(t.Op, "sha512.New384"):
+		return 48
+	case strings.HasPrefix(t.Op, "sha512.New"):
+		return 64
+	}
+	return -1
+}
+
+// rootLen: the fixed length of a local array object, recorded when it was allocated.
+func (w *walker) rootLen(s *state, root string) int64 {
+	if n, ok := s.rootLens[root]; ok {
+		return n
+	}
+	return -1
 }
 
 // invokeWrites: which arguments (receiver = 0) an interface call may write.
